@@ -192,11 +192,14 @@ pub fn specimens(rec: &mut Rec, lib: &dyn Lib, g: Grp, seed: u64, payload_len: u
 }
 
 pub fn codecs_of(ty: Ty) -> Vec<Codec> {
-    match ty {
+    let mut v = match ty {
         Ty::SecretKey | Ty::ProofCommitmentSecret | Ty::ProofCommitmentChallenge | Ty::SecretKeyEnum => Codec::ALL.to_vec(),
         Ty::SignatureSchemes | Ty::Bls12381 => vec![Codec::Bytes, Codec::Bare, Codec::Json],
         _ => vec![Codec::Bytes, Codec::BytesVec, Codec::BytesRefVec, Codec::BytesBox, Codec::Bare, Codec::Json],
-    }
+    };
+    // the human-readable form also as a reader hands it over (owned strings) and as a field of a parsed document
+    v.extend(Codec::JSON_FRONT_ENDS);
+    v
 }
 /// types whose byte form has one exact length per (type, group)
 pub fn fixed_len(ty: Ty) -> bool {
@@ -272,7 +275,7 @@ fn run_vault(plan: &Plan, lib: &dyn Lib, rec: &mut Rec) {
                 continue;
             };
             rec.expect("C15", "encoding-deterministic", enc2.first() == Some(e.as_slice()), || format!("{} {} | two encodings of one value differ", s.ty.name(), cd.name()));
-            if fixed_len(s.ty) && !matches!(cd, Codec::Json) {
+            if fixed_len(s.ty) && !matches!(cd, Codec::Json | Codec::JsonReader | Codec::JsonValue) {
                 let prev = *lens.entry((s.ty as u8, cd as u8)).or_insert(e.len());
                 rec.expect("C15", "fixed-size-types-have-one-length", prev == e.len(), || format!("{} {} | lengths {} and {} for one (type, group)", s.ty.name(), cd.name(), prev, e.len()));
             }
@@ -752,7 +755,7 @@ fn run_hostile_decoders(plan: &Plan, lib: &dyn Lib, rec: &mut Rec) {
     }
     // empty slices into every decoder of every type
     for ty in Ty::ALL {
-        for cd in Codec::ALL {
+        for cd in Codec::ALL.into_iter().chain(Codec::JSON_FRONT_ENDS) {
             rec.call(lib, g, Op::Exercise, &[&[ty as u8], &[cd as u8], &[]]);
             rec.call(lib, g, Op::Exercise, &[&[ty as u8], &[cd as u8], &[0]]);
             rec.call(lib, g, Op::Exercise, &[&[ty as u8], &[cd as u8], &[1]]);
